@@ -329,18 +329,19 @@ class World:
         """ settings: strictness, tta_threshold (float), sideload files/simple/cds/pad, taxon, pfam version,
             fungal multipliers, limit_to_rules """
         mods = am()
-        args = ["--databases", self.dbdir, "--minimal", "--enable-tta",
-                "--fullhmmer", "--clusterhmmer",
-                "--fullhmmer-pfamdb-version", settings.get("pfam", "35.0"),
+        args = ["--databases", self.dbdir, "--minimal", "--enable-tta"]
+        if not settings.get("bare"):
+            args += ["--fullhmmer", "--clusterhmmer"]
+        args += ["--fullhmmer-pfamdb-version", settings.get("pfam", "35.0"),
                 "--clusterhmmer-pfamdb-version", settings.get("pfam", "35.0"),
                 "--hmmdetection-strictness", settings.get("strictness", "relaxed"),
                 "--tta-threshold", repr(float(settings.get("tta_threshold", 0.65))),
                 "--taxon", settings.get("taxon", "bacteria")]
-        if settings.get("sideload"):
+        if settings.get("sideload") and not settings.get("bare"):
             args += ["--sideload", ",".join(settings["sideload"])]
-        if settings.get("sideload_simple"):
+        if settings.get("sideload_simple") and not settings.get("bare"):
             args += ["--sideload-simple", settings["sideload_simple"]]
-        if settings.get("sideload_cds"):
+        if settings.get("sideload_cds") and not settings.get("bare"):
             args += ["--sideload-by-cds", ",".join(settings["sideload_cds"]),
                      "--sideload-size-by-cds", str(settings.get("sideload_pad", 2000))]
         if settings.get("limit_rules"):
@@ -354,10 +355,9 @@ class World:
             from antismash.config.args import build_parser  # pylint: disable=import-outside-toplevel
             _PARSER.append(build_parser(from_config_file=True, modules=mods["main"].get_all_modules()))
         options = mods["build_config"](args, parser=_PARSER[0], isolated=True)
-        enabled = [mods["modules"][name] for name in ALL_MODULES]
-        if not mods["modules"]["antismash.detection.sideloader"].is_enabled(options):
-            enabled = [mod for mod in enabled if mod.__name__ != "antismash.detection.sideloader"]
-        options.all_enabled_modules = enabled
+        # as main._get_all_enabled_modules does, restricted to the modules taking part
+        options.all_enabled_modules = [mods["modules"][name] for name in ALL_MODULES
+                                       if mods["modules"][name].is_enabled(options)]
         return options
 
 
